@@ -705,6 +705,9 @@ func main() {
 			judgeAll(fresh)
 			frontier = fresh
 		}
+		if pf.Depth > maxDepth {
+			maxDepth = pf.Depth
+		}
 		states += pStates
 		transitions += pTransitions
 		perProfile[pf.Name] = map[string]interface{}{"events": ne, "getters_judged_per_state": len(pf.Getters), "max_depth": pf.Depth, "states": pStates, "histories_executed": pTransitions, "new_states_per_depth": perDepth}
